@@ -36,30 +36,47 @@ RULE = ("(host, pattern, attribute selection, list of configurations); exhaustiv
         "least one match and fewer than all injective maps are matches; distinct = distinct case contents")
 EXHAUSTIVE = {"quick": True, "thorough": True}
 EXPLANATION = ("Exhaustive sub-space: quick = every iso class of hosts <= 3 nodes x patterns <= 2 nodes (13 532 pairs), thorough = hosts <= 4 x "
-               "patterns <= 2 (317 050 pairs), all strategies, strict on/off, pre-filter on/off, no limits; the rest is sampled. "
-               "Theorems are about the Gallina model parameterised by the VF2 oracle (any permutation of the verified enumerator); "
-               "the correspondence compares result multisets (lists when limits are set), component partitions and pre-filter verdicts.")
+               "patterns <= 2 (317 050 pairs), all strategies, strict on/off, pre-filter on/off, no limits; the rest is sampled "
+               "(quick: 1 500 host<=4 x pattern<=3 class pairs, 1 200 random molecule-like pairs, 1 200 ordered cases with limit "
+               "configurations and recorded VF2 order). Theorems are about the Gallina model parameterised by the VF2 oracle (any "
+               "duplicate-free listing of the valid monomorphisms); the correspondence compares result multisets (lists when limits "
+               "are set), component partitions and pre-filter verdicts.")
 TRUSTED_BASE = [
     "Coq 8.16.1 kernel + vm_compute (no native_compute)",
     "hand-written model coq/model/C06_Model.v tied to synkit/Graph/Matcher/subgraph_matcher.py by the per-run correspondence",
     "harness encoder harness/props/C06.py (attribute projection/interning, hcount default 0, threshold default 5000)",
-    "networkx VF2 subgraph_monomorphisms_iter enumerates a permutation of the label-preserving monomorphisms "
-    "(oracle contract; monitored on every case by comparison with the verified enumerator lib/Mono.v)",
-    "networkx Graph.copy / subgraph / connected_components (components are re-computed by the model and compared)",
+    "networkx VF2 subgraph_monomorphisms_iter returns a duplicate-free listing of exactly the label-preserving monomorphisms "
+    "(premise vf2_contract / oracle_ok of the theorems; monitored on every ordered case by table_ok against the verified "
+    "enumerator lib/Mono.v, which is PROVED to satisfy the premise: C06_enumerator_meets_contract / C06_enumerator_oracle_ok)",
+    "networkx Graph.copy / subgraph / connected_components (components are re-computed by the model, proved to be the "
+    "connectivity classes (C06_components), and compared on every case)",
 ]
-ASSUMPTIONS = ["graphs are simple undirected networkx Graphs without self-loops", "hcount, when present, is a non-negative int",
+ASSUMPTIONS = ["graphs are simple undirected networkx Graphs without self-loops with distinct node ids (premise gwf of the theorems)",
+               "hcount, when present, is a non-negative int",
                "attribute values are JSON scalars compared with Python ==",
-               "strict_cc_count=True with more host than pattern components is the documented guard (comp: [], bt: exhaustive) — "
-               "outside the property text, pinned by the correspondence only",
-               "a per-component embedding list longer than the threshold empties the result (documented enumeration guard)"]
-TESTED_NOT_PROVED = ["inputs are not modified (adapter deep-compares host and pattern before/after every call)",
-                     "Strategy.from_string dispatch (strings 'all'/'comp'/'bt' and enum members)"]
-LEVEL_TEXT = ("Machine-checked proof (Coq) over an executable, structure-following model of SubgraphSearchEngine parameterised by the VF2 "
-              "oracle: ALL = exactly the label-preserving monomorphisms without duplicates; COMPONENT = exactly those separating "
-              "pattern components into distinct host components (all when the host has fewer); BACKTRACK = that set if non-empty else "
-              "ALL; limits only truncate / empty past the threshold.  Model tied to the code by comparing result multisets/lists, "
-              "component partitions and pre-filter verdicts on exhaustive small scopes and random populations on every run.")
-LEVEL_NOTE = ("Trusted: Coq kernel, the model, the harness encoder, the VF2 oracle contract (monitored). networkx itself is not verified.")
+               "strict_cc_count=True with more host than pattern components is the documented guard (comp: [], bt: exhaustive) - "
+               "outside the property text; stated as the first case of C06_comp_spec, pinned by the correspondence",
+               "a per-component embedding list longer than the threshold empties the component-aware result even when the combined "
+               "result would not be past the threshold (docstring: 'enumeration guard'); second alternative of C06_limits, witness "
+               "C06_limits_guard_reachable; accepted by the oracle"]
+TESTED_NOT_PROVED = ["inputs are not modified (pure model; the adapter deep-compares host and pattern before/after every call)",
+                     "Strategy.from_string dispatch (strings 'all'/'comp'/'bt' and enum members)",
+                     "_quick_pre_filter verdicts (modelled and compared; proved only: it can only empty the result)",
+                     "duplicate-freeness of the component-aware result (oracle + correspondence as multisets; proved for the exhaustive "
+                     "strategy only)",
+                     "the VF2 contract itself (monitored, see TRUSTED_BASE)"]
+LEVEL_TEXT = ("Machine-checked proof (Coq, all inputs, 11 theorems closed under the global context) over an executable, "
+              "structure-following model of SubgraphSearchEngine.find_subgraph_mappings parameterised by the VF2 enumeration: "
+              "ALL = exactly the label-preserving monomorphisms, duplicate-free (under the VF2 contract, which the verified enumerator "
+              "provably meets); COMPONENT = exactly those sending different pattern components into different host components, all of "
+              "them when the host has fewer components, [] under the strict_cc_count guard; BACKTRACK = COMPONENT if non-empty else ALL; "
+              "for every max_results/threshold the result is the prefix of length min of the unlimited list, emptied past the threshold, "
+              "or (comp/bt) the per-component enumeration guard fired.  Model tied to the code on every run by comparing result "
+              "multisets/lists, component partitions and pre-filter verdicts on exhaustive small scopes and random populations.")
+LEVEL_NOTE = ("Trusted: Coq kernel, the model, the harness encoder, the VF2 contract (monitored per case; networkx itself is not "
+              "verified).  Not proved: duplicate-freeness of the component-aware list, input immutability of the Python code (monitored).")
+TECHNIQUE = "Coq 8.16 proof about an executable Gallina model + per-run correspondence (vm_compute digest vs implementation) + independent brute-force property oracle"
+DESIGN_REF = "DESIGN.md section 5 C06, Appendix A.1; notes/C06.md"
 
 
 # ------------------------------------------------------------------ helpers
@@ -607,7 +624,7 @@ def gen_cases(tier, rng):
     # ---- sampled hosts <= 4 x patterns <= 3
     big_h = cls[1] + cls[2] + cls[3] + cls[4]
     big_p = cls[1] + cls[2] + cls[3]
-    n_samp = 9000 if tier == "quick" else 300000
+    n_samp = 1500 if tier == "quick" else 300000   # measured: lowest mutant-detection rate per case of all populations
     for _ in range(n_samp):
         # bias towards 4-node hosts / 3-node patterns (the part not covered exhaustively)
         h = rng.choice(cls[4]) if rng.random() < 0.8 else rng.choice(big_h)
